@@ -34,9 +34,9 @@ RULE = (
     "per tree shape (1-5 components, each registering 1-3 teardown probes in prepare() and start()) ALL endings are enumerated: 17 run() results (None, ints in and out of range, bools, truthy and falsy non-ints), "
     "run() raising {ValueError, custom Exception}, failure in every (component, phase in ctor/prepare/start), start-up timeout, each of SIGINT/SIGTERM "
     "raised from every (component, phase) probe, during a CLI run(), and after start-up of a non-CLI application, a service task crashing during "
+    "start-up and after it; both backends. "
     "Teardown probes are sync, async, or async-and-waiting; components may start idle service tasks whose teardown action is a function / unhashable callable object / built-in bound method; the start-up timeout strikes in prepare() or start() of every component. "
-    "start-up and after it; both backends. Non-trivial: >= 2 teardown probes registered before the ending; distinct = (tree, ending, backend)."
-)
+    "Non-trivial: >= 2 teardown probes registered before the ending; distinct = (tree, ending, backend).")
 DECIDING = {
     "scenarios": "scenarios executed",
     "ending_result": "CLI run() results",
